@@ -342,25 +342,24 @@ def byte_contracts():
 
     def bv_names(ex):
         """roles of the loop's locals, read from the AST: the shifted mask, the current byte, the result list"""
-        fnode = ex.cur_fn_stack[-1]
-        loop = sorted([n for n in ast.walk(fnode) if isinstance(n, (ast.For, ast.While))], key=lambda n: (n.lineno, n.col_offset))[0]
+        loop = ex._loop_nodes[-1]
         masks = {n.target.id for n in ast.walk(loop) if isinstance(n, ast.AugAssign) and isinstance(n.op, ast.RShift) and isinstance(n.target, ast.Name)}
         bytes_ = {n.targets[0].id for n in ast.walk(loop) if isinstance(n, ast.Assign) and len(n.targets) == 1 and isinstance(n.targets[0], ast.Name)
                   and isinstance(n.value, ast.Call) and isinstance(n.value.func, ast.Attribute) and n.value.func.attr == "_read_uint8"}
         if len(masks) != 1 or len(bytes_) != 1:
             raise ops.Unsupported(f"_read_boolean_vector: loop roles not recognised (mask {sorted(masks)}, byte {sorted(bytes_)})")
-        return masks.pop(), bytes_.pop(), worklist_name(fnode, 0)
+        return masks.pop(), bytes_.pop(), worklist_of(loop)
 
     def bv_havoc(ex, st):
         m, b, _r = bv_names(ex)
         st.bind(m, VInt(z3.BitVec(fresh_name(m), 8)))      # both range over bytes (invariant below)
         st.bind(b, VInt(z3.BitVec(fresh_name(b), 8)))
-        common.havoc_pos(ex, st, st.obj(st.lookup("self").ref).data["_stream"])
+        common.havoc_pos(ex, st, st.obj(top(ex, "self").ref).data["_stream"])
 
     def bv_inv(lc):
         m, b, res = bv_names(lc.ex)
         i = lc.i
-        stream = lc.entry.obj(lc.entry.lookup("self").ref).data["_stream"]
+        stream = lc.entry.obj(top(lc, "self").ref).data["_stream"]
         s = stream.t
         p0 = common.bytesio_pos(lc.entry, stream)
         pos = common.bytesio_pos(lc.st, stream)
@@ -390,8 +389,7 @@ def byte_contracts():
                  ("bit-loop-runs-to-completion-unless-all-defined", internal(lambda c: z3.Or(
                      bv_all(c), z3.BoolVal(bool(c.st.ghost.get(("done", "bit-i-is-bit-7-minus-i-mod-8-of-byte-i-div-8")))))))],
         raises=[Raises(BAD, when=bv_short, label="short stream")],
-        loops={0: LoopSpec(inv=done("bit-i-is-bit-7-minus-i-mod-8-of-byte-i-div-8", bv_inv), label="bit-i-is-bit-7-minus-i-mod-8-of-byte-i-div-8",
-                           havoc=(bv_havoc,))},
+        loops=role(is_seq("int"), "bit-i-is-bit-7-minus-i-mod-8-of-byte-i-div-8", bv_inv, havoc=(bv_havoc,)),
         note="7z BitVector (optionally preceded by the allAreDefined byte): MSB-first bits; any count"))
     out.append(FnContract(
         target=f"{RD}._seek_back_one", params=[("self", p_reader())],
@@ -514,16 +512,81 @@ class CompSpec(LoopSpec):
         self.result = result
 
 
+class RoleSpec(LoopSpec):
+    """a loop specification selected by WHAT the loop iterates over (match(ex, st, iterable, node)), not by its position in the
+    function: it follows the loop into a helper the code was refactored into (helpers are executed in place)"""
+
+    def __init__(self, match, inv=None, havoc=(), label=""):
+        super().__init__(inv=inv, havoc=havoc, label=label)
+        self.match = match
+
+
+def merged(*ds):
+    out = {}
+    for d in ds:
+        out.update(d)
+    return out
+
+
+def role(match, label, inv, havoc=()):
+    return {("role", label): RoleSpec(match, inv=done(label, inv), havoc=havoc, label=label)}
+
+
+def is_seq(*kinds, tag=None):
+    def m(ex, st, it, node):
+        if not isinstance(it, VSeq):
+            return False
+        if tag is not None:
+            return isinstance(it.tag, tuple) and bool(it.tag) and it.tag[0] == tag
+        return it.ekind in kinds and not (isinstance(it.tag, tuple) and it.tag and it.tag[0] in ("worklist", "worklist7", "bitvector", "zidx"))
+    return m
+
+
+def top(x, name):
+    """value of a parameter of the function under contract (also visible from invariants of loops in inlined helpers)"""
+    ex = getattr(x, "ex", x)
+    return ex.top_args[name]
+
+
+def cur_loop(lc):
+    return lc.ex._loop_nodes[-1]
+
+
 class C10Executor(Executor):
     """Pack-local models of the abstract 7z header view (all ASSUMED views are listed in ASSUMED_MODELS)."""
 
+    _role_stack = ()
+    _loop_nodes = ()
+
+    def symbolic_for(self, s, st, it):
+        spec = None
+        if self.contract is not None:
+            for key, sp in self.contract.loops.items():
+                if isinstance(key, tuple) and key[0] == "role" and sp.match(self, st, it, s):
+                    spec = sp
+                    break
+        self._role_stack = tuple(self._role_stack) + (spec,)
+        self._loop_nodes = tuple(self._loop_nodes) + (s,)
+        try:
+            return super().symbolic_for(s, st, it)
+        finally:
+            self._role_stack = self._role_stack[:-1]
+            self._loop_nodes = self._loop_nodes[:-1]
+
+    def loop_spec(self, node):
+        if self._role_stack and self._role_stack[-1] is not None and self._loop_nodes and self._loop_nodes[-1] is node:
+            return self._role_stack[-1]
+        return super().loop_spec(node)
+
     def e_ListComp(self, n, st):
         spec = None
-        if self.contract is not None and self.inline_depth == 0 and len(n.generators) == 1 and not n.generators[0].ifs:
-            fnode = self.cur_fn_stack[-1] if self.cur_fn_stack else None
-            comps = sorted([x for x in ast.walk(fnode) if isinstance(x, ast.ListComp)], key=lambda x: (x.lineno, x.col_offset)) if fnode else []
-            if n in comps:
-                spec = self.contract.loops.get(("comp", comps.index(n)))
+        if self.contract is not None and len(n.generators) == 1 and not n.generators[0].ifs:
+            spec = self.contract.loops.get(("comp", "*"))
+        if spec is not None:
+            # only comprehensions over a SYMBOLIC iterable are summarised under the invariant
+            probe = self.ev(n.generators[0].iter, st.fork())
+            if len(probe) != 1 or not isinstance(probe[0][1], VSeq):
+                spec = None
         if spec is None:
             return super().e_ListComp(n, st)
         from pyvc.symex import LoopCtx
@@ -766,18 +829,31 @@ class C10Executor(Executor):
         return [(st, f)]
 
 
+KNOWN_READER_LISTS = {"_files", "_folders", "_pack_positions", "_pack_sizes", "_file_sizes"}
+
+
 def zero_length_worklist(repo=None):
-    """name of the reader attribute that `extractall` iterates (besides the folders) to create the ZERO-LENGTH files
-    (entries with emptyStream + emptyFile have no stream and belong to no folder), or None when extractall has no such loop"""
-    fnode = loader.module(SEVEN, repo).functions.get("SevenZipReader.extractall")
-    if fnode is None:
+    """name of the reader attribute that holds the ZERO-LENGTH files to create at extraction (entries with emptyStream +
+    emptyFile have no stream and belong to no folder): the list attribute initialised in __init__ that is not one of the header
+    lists and that some method iterates (`for x in self.<attr>`); None when the reader has no such attribute"""
+    m = loader.module(SEVEN, repo)
+    init = m.functions.get("SevenZipReader.__init__")
+    if init is None:
         return None
-    loops = sorted([n for n in ast.walk(fnode) if isinstance(n, ast.For)], key=lambda n: (n.lineno, n.col_offset))
-    for lp in loops[1:]:
-        it = lp.iter
-        if isinstance(it, ast.Attribute) and isinstance(it.value, ast.Name) and it.value.id == "self":
-            return it.attr
-    return None
+    lists = set()
+    for n in ast.walk(init):
+        tgt = n.targets[0] if isinstance(n, ast.Assign) and len(n.targets) == 1 else (n.target if isinstance(n, ast.AnnAssign) else None)
+        val = getattr(n, "value", None)
+        if isinstance(tgt, ast.Attribute) and isinstance(tgt.value, ast.Name) and tgt.value.id == "self" and isinstance(val, ast.List) and not val.elts:
+            lists.add(tgt.attr)
+    cands = set()
+    for q, f in m.functions.items():
+        if q.startswith("SevenZipReader."):
+            for lp in ast.walk(f):
+                if isinstance(lp, ast.For) and isinstance(lp.iter, ast.Attribute) and isinstance(lp.iter.value, ast.Name) and lp.iter.value.id == "self":
+                    cands.add(lp.iter.attr)
+    cands = (cands & lists) - KNOWN_READER_LISTS
+    return sorted(cands)[0] if len(cands) == 1 else None
 
 
 ZIDX = z3.Function("zero_length_file_index", I, I)     # j-th zero-length file (index into the file list)
@@ -870,16 +946,30 @@ def install_layout(reg):
     reg.attr_models[("FileInfo", "filename")] = lambda ex, st, o: VStr(FNAME(o.t))
 
 
+def assigned_in(loop):
+    """names (re)bound by the statements of a loop body"""
+    out = set()
+    for stmt in loop.body:
+        for n in ast.walk(stmt):
+            if isinstance(n, ast.Name) and isinstance(n.ctx, ast.Store):
+                out.add(n.id)
+    tgt = {n.id for n in ast.walk(loop.target) if isinstance(n, ast.Name)} if isinstance(loop, ast.For) else set()
+    return out - tgt
+
+
+def loop_carried_ints(lc):
+    """{name: current value} of the int locals that exist before the loop AND are reassigned in its body: the loop's state"""
+    names = assigned_in(cur_loop(lc))
+    env0 = lc.entry.frame.env
+    return {k: lc.st.lookup(k) for k in sorted(names) if isinstance(env0.get(k), VInt) and isinstance(lc.st.lookup(k), VInt)}
+
+
 def offset_local(lc):
-    """the running offset: the unique int local assigned in the loop body that is not the loop target."""
-    st = lc.st
-    cands = [(k, v) for k, v in st.frame.env.items() if isinstance(v, VInt) and k in ("offset",)]
-    if len(cands) != 1:
-        ints = [(k, v) for k, v in st.frame.env.items() if isinstance(v, VInt) and k not in ("folder_idx", "file_idx")]
-        if len(ints) != 1:
-            raise ops.Unsupported(f"member loop: expected one running offset, found {[k for k, _ in ints]}")
-        cands = ints
-    return cands[0][1]
+    """the running offset of the member loop: its only loop-carried int"""
+    ints = loop_carried_ints(lc)
+    if len(ints) != 1:
+        raise ops.Unsupported(f"member loop: expected one running offset, found {sorted(ints)}")
+    return next(iter(ints.values()))
 
 
 def blob_local(lc, st=None):
@@ -931,7 +1021,7 @@ def layout_contracts():
 
     def df_inv(lc):
         x0 = blob_local(lc, lc.entry).t
-        fo = lc.entry.lookup("folder").t
+        fo = top(lc, "folder").t
         return z3.And(blob_local(lc).t == CHAIN(fo, x0, lc.i), NCOD(fo) >= 0)
 
     out.append(FnContract(
@@ -942,7 +1032,7 @@ def layout_contracts():
         requires=lambda c: z3.And(ops.int_term(c.args["pack_pos"]) >= 0, df_sum(c) >= 0, NCOD(c.args["folder"].t) >= 0),
         returns=df_returns,
         raises=[Raises(BAD, label="no coders / decoder failure")],
-        loops={0: LoopSpec(inv=done("decoder-chain-last-coder-first", df_inv), label="decoder-chain-last-coder-first")},
+        loops=role(lambda ex, st, it, node: True, "decoder-chain-last-coder-first", df_inv),
         note="decodes archive[pack_pos : pack_pos + sum(pack_sizes)] through the folder's coder chain, last coder first "
              "(empty / all-zero size list: everything from pack_pos to the end of the file -- the header case)"))
 
@@ -965,9 +1055,9 @@ def layout_contracts():
                                 patterns=[FIDX(k, j)]))
 
     def ef_inv(lc):
-        k = ops.int_term(lc.entry.lookup("folder_idx"))
-        dec = lc.entry.lookup("decompressed").t
-        base = lc.entry.lookup("base_path").t
+        k = ops.int_term(top(lc, "folder_idx"))
+        dec = top(lc, "decompressed").t
+        base = top(lc, "base_path").t
         i = lc.i
         conj = [ops.int_term(offset_local(lc)) == OFF(k, i), OFF(k, i) >= 0]
         if lc.extra.get("phase") == "preserve":
@@ -992,7 +1082,7 @@ def layout_contracts():
         requires=ef_requires,
         raises=[Raises(BAD, label="unsafe name / size beyond the folder output / file-system failure")],
         ensures=[completes("member-j-is-slice-off_j-size_j-of-the-folder-output")],
-        loops={0: LoopSpec(inv=done("member-j-is-slice-off_j-size_j-of-the-folder-output", ef_inv), label="member-j-is-slice-off_j-size_j-of-the-folder-output")},
+        loops=role(is_seq("int"), "member-j-is-slice-off_j-size_j-of-the-folder-output", ef_inv),
         frame=lambda ex, st, ctx: st.ghost.__setitem__("extracted", events(st, "extracted") + ((ctx.args["folder_idx"], ctx.args["decompressed"]),)),
         note="offset of entry j = sum of the sizes of the earlier non-directory entries of the folder"))
 
@@ -1005,14 +1095,14 @@ def layout_contracts():
              "_header_offset": p_const(32), "_folder_to_files": p_ext("FolderMap"), "_files": p_files(),
              "_archive_file": p_ext("ArchiveFile")}
         if ZL:
-            f[ZL] = Maker(lambda ex, st, name: [(NZ >= 0, VSeq(NZ, lambda j: VInt(ZIDX(j)), "int"))], desc="indices of the zero-length files")
+            f[ZL] = Maker(lambda ex, st, name: [(NZ >= 0, VSeq(NZ, lambda j: VInt(ZIDX(j)), "int", tag=("zidx",)))], desc="indices of the zero-length files")
         return p_obj("SevenZipReader", f)
 
     def zl_inv(lc):
         conj = []
         if lc.extra.get("phase") == "preserve":
             fi = FINFO(ZIDX(lc.i - 1))
-            base = lc.entry.lookup("path").t
+            base = top(lc, "path").t
             opens, writes = new_events(lc, "opens"), new_events(lc, "writes")
             ok = z3.BoolVal(False)
             if len(opens) == 1 and len(writes) == 0:
@@ -1031,8 +1121,8 @@ def layout_contracts():
 
     def ea_archive(c_or_lc):
         st = c_or_lc.entry
-        sf = st.lookup("source_file")
-        return sf.t if isinstance(sf, VExt) else st.obj(st.lookup("self").ref).data["_archive_file"].t
+        sf = top(c_or_lc, "source_file")
+        return sf.t if isinstance(sf, VExt) else st.obj(top(c_or_lc, "self").ref).data["_archive_file"].t
 
     def ea_requires(c):
         j = z3.Int("j!req")
@@ -1081,8 +1171,8 @@ def layout_contracts():
         raises=[Raises("ValueError", when=lambda c: z3.Length(c.args["path"].t) == 0, label="empty path"),
                 Raises(BAD, label="directory creation / decoder / member extraction failed")],
         ensures=[completes("folder-k-decoded-from-its-own-pack-stream"), ("zero-length-files-are-created-empty", internal(ea_zero_length))],
-        loops=dict([(0, LoopSpec(inv=done("folder-k-decoded-from-its-own-pack-stream", ea_inv), label="folder-k-decoded-from-its-own-pack-stream"))] +
-                   ([(1, LoopSpec(inv=done(ZL_LABEL, zl_inv), label=ZL_LABEL))] if ZL else [])),
+        loops=merged(role(is_seq("tuple", "Folder"), "folder-k-decoded-from-its-own-pack-stream", ea_inv),
+                   role(is_seq(tag="zidx"), ZL_LABEL, zl_inv)),
         note="for every folder k that has files: the bytes handed to _extract_files_from_folder are "
              "decode_chain(folder k, archive[pack_pos + sum(pack_sizes[:k]) : +pack_sizes[k]])"))
     return out
@@ -1231,10 +1321,9 @@ def m_stream_seek(ex, st, obj, args, kwargs, node):
     return common.m_seek(ex, st, obj, args, kwargs, node)
 
 
-def worklist_name(fnode, loop_ordinal=0):
-    """the local list a selection loop appends to (the unique `X.append(...)` receiver in that loop)."""
-    loops = sorted([n for n in ast.walk(fnode) if isinstance(n, (ast.For, ast.While))], key=lambda n: (n.lineno, n.col_offset))
-    names = {n.func.value.id for n in ast.walk(loops[loop_ordinal]) if isinstance(n, ast.Call) and isinstance(n.func, ast.Attribute)
+def worklist_of(loop):
+    """the local list a loop appends to (the unique `X.append(...)` receiver that is a plain name)"""
+    names = {n.func.value.id for n in ast.walk(loop) if isinstance(n, ast.Call) and isinstance(n.func, ast.Attribute)
              and n.func.attr == "append" and isinstance(n.func.value, ast.Name)}
     if len(names) != 1:
         raise ops.Unsupported(f"selection loop: expected one appended-to list, found {sorted(names)}")
@@ -1448,7 +1537,7 @@ def member_contracts():
         generator=True, raises=[],
         ensures=[("one-dispatch-extractor-by-basename-member-bytes-archive!/member-path", internal(pe_dispatch_ok)),
                  ("member-dispatched-and-all-its-results-yielded-unless-it-fails", internal(pe_complete))],
-        loops={0: LoopSpec(inv=done("yields-the-extractor-results-in-order", pe_inv), label="yields-the-extractor-results-in-order")},
+        loops=role(lambda ex, st, it, node: isinstance(it, VExt) and it.sort == "ResultGen", "yields-the-extractor-results-in-order", pe_inv),
         result_maker=lambda ex, st, ctx: VExt("EntryGen", entry_term(ctx.args["filename"].t, ctx.args["file_data"].t,
                                                                      ctx.args["archive_path"], ctx.args["basename"].t)),
         note="a member failure is swallowed here (affects only itself); results = extractor(BytesIO(bytes), path='archive!/member')"))
@@ -1465,8 +1554,7 @@ def member_contracts():
         zf = zip_zf(lc)
         i = lc.i
         conj = []
-        fnode = lc.ex.cur_fn_stack[-1]
-        wl = worklist_name(fnode, 0)
+        wl = worklist_of(cur_loop(lc))
         ref = lc.entry.lookup(wl).ref
         if lc.extra.get("phase") == "preserve":
             e = ZINFO(zf, i - 1)
@@ -1493,7 +1581,7 @@ def member_contracts():
         if lc.extra.get("phase") == "preserve":
             j = lc.i - 1
             e = ZINFO(zf, ZSEL(zf, j))
-            ap = lc.entry.lookup("archive_path")
+            ap = top(lc, "archive_path")
             ys = new_events(lc, "yields")
             ok = z3.BoolVal(False)
             if len(ys) == 0:
@@ -1513,8 +1601,8 @@ def member_contracts():
         raises=[Raises(ENC, label="an entry is encrypted"), Raises("Exception", sub=True, label="the container could not be opened",
                                                                   when=lambda c: z3.BoolVal(c.exc is not None and c.exc.attrs.get("site") == "zipfile.ZipFile()")),
                 Raises("ExtractionFailedError", label="BadZipFile from the constructor")],
-        loops={0: LoopSpec(inv=done("selects-the-visible-supported-members-in-infolist-order", zip_sel_inv), label="selects-the-visible-supported-members-in-infolist-order"),
-               1: LoopSpec(inv=done("each-selected-member-dispatched-with-its-own-bytes-name-basename", zip_disp_inv), label="each-selected-member-dispatched-with-its-own-bytes-name-basename")},
+        loops=merged(role(is_seq("ZipInfo"), "selects-the-visible-supported-members-in-infolist-order", zip_sel_inv),
+                   role(is_seq(tag="worklist"), "each-selected-member-dispatched-with-its-own-bytes-name-basename", zip_disp_inv)),
         frame=lambda ex, st, ctx: st.ghost.__setitem__("routes", events(st, "routes") + (("zip", ctx.args["file_like"], ctx.args["archive_path"], None),)),
         result_maker=lambda ex, st, ctx: VExt("MemberGen"),
         note="members: non-directory, not skipped, <= max_memory_size; order = zf.infolist(); bytes = zf.read(info)"))
@@ -1531,7 +1619,7 @@ def member_contracts():
         conj = []
         if lc.extra.get("phase") == "preserve":
             m = TMEM(tf, lc.i - 1)
-            ap = lc.entry.lookup("archive_path")
+            ap = top(lc, "archive_path")
             keep = z3.And(TISREG(m), z3.Not(SKIP(TNAME(m), BASENAME(TNAME(m)))), z3.Not(TSIZE(m) > MAXMEM), THASFILE(tf, m))
             ys = new_events(lc, "yields")
             failed = lc.st.ghost.get("raised", 0) > lc.entry.ghost.get("raised", 0)
@@ -1559,7 +1647,7 @@ def member_contracts():
         raises=[Raises("Exception", sub=True, label="the container could not be opened / listed",
                        when=lambda c: z3.BoolVal(c.exc is not None and c.exc.attrs.get("site") in ("tarfile.open()", "TarFile.getmembers()"))),
                 Raises("ExtractionFailedError", label="TarError")],
-        loops={0: LoopSpec(inv=done("each-visible-supported-regular-member-dispatched-in-getmembers-order", tar_inv), label="each-visible-supported-regular-member-dispatched-in-getmembers-order")},
+        loops=role(is_seq("TarInfo"), "each-visible-supported-regular-member-dispatched-in-getmembers-order", tar_inv),
         frame=lambda ex, st, ctx: st.ghost.__setitem__("routes", events(st, "routes") + (("tar", ctx.args["file_like"], ctx.args["archive_path"], ctx.args.get("mode")),)),
         result_maker=lambda ex, st, ctx: VExt("MemberGen"),
         note="members: regular, not skipped, <= max_memory_size; order = tf.getmembers(); bytes = tf.extractfile(m).read(); "
@@ -1572,8 +1660,8 @@ def member_contracts():
         conj = []
         if lc.extra.get("phase") == "preserve":
             j = lc.i - 1
-            temp = lc.entry.lookup("temp_dir").t
-            ap = lc.entry.lookup("archive_path")
+            temp = top(lc, "temp_dir").t
+            ap = top(lc, "archive_path")
             pth = SJ(temp, WFN(j))
             ys = new_events(lc, "yields")
             failed = lc.st.ghost.get("raised", 0) > lc.entry.ghost.get("raised", 0)
@@ -1594,7 +1682,7 @@ def member_contracts():
         params=[("files_to_process", wl_maker), ("temp_dir", p_str()), ("archive_path", p_opt(p_str()))],
         generator=True, raises=[],
         ensures=[completes("each-work-item-dispatched-with-the-bytes-extracted-under-its-own-name")],
-        loops={0: LoopSpec(inv=done("each-work-item-dispatched-with-the-bytes-extracted-under-its-own-name", seq7_inv), label="each-work-item-dispatched-with-the-bytes-extracted-under-its-own-name")},
+        loops=role(is_seq("tuple"), "each-work-item-dispatched-with-the-bytes-extracted-under-its-own-name", seq7_inv),
         result_maker=seq7_result,
         note="work item (info, name, base) -> entry(name, content of safe_join(temp_dir, name), archive_path, base); "
              "a missing / unreadable file affects only itself"))
@@ -1604,8 +1692,7 @@ def member_contracts():
     def sel7_inv(lc):
         i = lc.i
         conj = []
-        fnode = lc.ex.cur_fn_stack[-1]
-        wl = worklist_name(fnode, 0)
+        wl = worklist_of(cur_loop(lc))
         ref = lc.entry.lookup(wl).ref
         if lc.extra.get("phase") == "preserve":
             e = FINFO(i - 1)
@@ -1649,7 +1736,7 @@ def member_contracts():
         raises=[Raises("ExtractionError", sub=True, label="too large / encrypted / extraction failed / invalid archive"),
                 Raises("Exception", sub=True, label="container / temp dir could not be opened",
                        when=lambda c: z3.BoolVal(c.exc is not None and "site" in c.exc.attrs))],
-        loops={0: LoopSpec(inv=done("selects-the-visible-supported-members-in-list-order", sel7_inv), label="selects-the-visible-supported-members-in-list-order")},
+        loops=role(is_seq("FileInfo"), "selects-the-visible-supported-members-in-list-order", sel7_inv),
         frame=lambda ex, st, ctx: st.ghost.__setitem__("routes", events(st, "routes") + (("7z", ctx.args["file_like"], ctx.args["archive_path"], None),)),
         result_maker=lambda ex, st, ctx: VExt("MemberGen"),
         note="members: non-directory, not skipped, <= max_memory_size; order = szf.list()"))
@@ -1766,14 +1853,14 @@ def build_contracts(reg):
             z3.ForAll([t], z3.Implies(z3.And(t >= 0, t < MF), NSK(t) >= 1), patterns=[FOLD(t)]),
             RANK(NFL) <= NFS)
 
-    def files_ref(st):
-        return st.obj(st.lookup("self").ref).data["_files"]
+    def files_ref(lc):
+        return lc.entry.obj(top(lc, "self").ref).data["_files"]
 
     def size_index_local(lc):
-        v = lc.st.lookup("size_index")
-        if not isinstance(v, VInt):
-            raise ops.Unsupported("_build_file_list: running sub-stream index not found")
-        return ops.int_term(v)
+        ints = loop_carried_ints(lc)
+        if len(ints) != 1:
+            raise ops.Unsupported(f"_build_file_list: expected one running sub-stream index, found {sorted(ints)}")
+        return ops.int_term(next(iter(ints.values())))
 
     cap = {}
 
@@ -1784,7 +1871,7 @@ def build_contracts(reg):
             lc.st.assume(rank_mono_at(i + 1, NFL))      # lemma rank-monotone (induction, lemmas()), instantiated at this index
         if lc.extra.get("phase") == "preserve":
             j = i - 1
-            fr = files_ref(lc.entry)
+            fr = files_ref(lc)
             new = [v for (r, v) in new_events(lc, "appends") if isinstance(fr, VRef) and r == fr.ref]
             ok = z3.BoolVal(False)
             if len(new) == 1 and isinstance(new[0], VRef) and lc.st.obj(new[0].ref).cls == "FileInfo":
@@ -1800,7 +1887,7 @@ def build_contracts(reg):
                                  note="FileInfo.is_directory must be emptyStream AND NOT emptyFile (7zFormat.txt, FilesInfo)", loc="")
                     if ZLB:
                         # the worklist of zero-length files (what extractall creates): file j is put on it iff emptyStream AND emptyFile
-                        zr = lc.entry.obj(lc.entry.lookup("self").ref).data[ZLB]
+                        zr = lc.entry.obj(top(lc, "self").ref).data[ZLB]
                         zl = [v for (r, v) in new_events(lc, "appends") if isinstance(zr, VRef) and r == zr.ref]
                         zok = z3.BoolVal(False)
                         if len(zl) == 0:
@@ -1823,14 +1910,18 @@ def build_contracts(reg):
             if any(not f.eq(forms[0]) for f in forms):
                 raise ops.Unsupported("is_directory computed differently on different paths")
             v = VSeq(NFL, lambda j: VHandle("BuiltFile", j, {"is_directory": VBool(subst_index(t, i_c, j))}), "BuiltFile")
-            lc.st.wobj(lc.st.lookup("self").ref).data["_files"] = v
+            lc.st.wobj(top(lc, "self").ref).data["_files"] = v
         return z3.And(conj)
 
     def map_inv(lc):
         i = lc.i
-        fidx, fif = lc.st.lookup("folder_idx"), lc.st.lookup("file_in_folder")
-        if not (isinstance(fidx, VInt) and isinstance(fif, VInt)):
-            raise ops.Unsupported("_build_file_list: folder cursor locals not found")
+        ints = loop_carried_ints(lc)
+        zeroed = {t.id for n in ast.walk(cur_loop(lc)) if isinstance(n, ast.Assign) and isinstance(n.value, ast.Constant) and n.value.value == 0
+                  for t in n.targets if isinstance(t, ast.Name)} & set(ints)
+        if len(ints) != 2 or len(zeroed) != 1:
+            raise ops.Unsupported(f"_build_file_list: folder cursor not recognised (loop-carried ints {sorted(ints)}, reset to 0: {sorted(zeroed)})")
+        fif = ints[next(iter(zeroed))]                      # position inside the current folder: the one reset to 0
+        fidx = next(v for k, v in ints.items() if k not in zeroed)
         k, j = ops.int_term(fidx), ops.int_term(fif)
         r = RANK(i)
         conj = [0 <= k, k <= MF,
@@ -1859,10 +1950,8 @@ def build_contracts(reg):
         requires=b_requires, raises=[], modifies=("self",),
         ensures=[completes("file-i-gets-its-name-attributes-and-the-size-of-its-sub-stream",
                            "file-with-r-th-stream-goes-to-the-folder-k-with-cum(k)<=r<cum(k+1)")],
-        loops={0: LoopSpec(inv=done("file-i-gets-its-name-attributes-and-the-size-of-its-sub-stream", files_inv),
-                           label="file-i-gets-its-name-attributes-and-the-size-of-its-sub-stream"),
-               1: LoopSpec(inv=done("file-with-r-th-stream-goes-to-the-folder-k-with-cum(k)<=r<cum(k+1)", map_inv),
-                           label="file-with-r-th-stream-goes-to-the-folder-k-with-cum(k)<=r<cum(k+1)")},
+        loops=merged(role(is_seq("int"), "file-i-gets-its-name-attributes-and-the-size-of-its-sub-stream", files_inv),
+                   role(is_seq("tuple", "BuiltFile"), "file-with-r-th-stream-goes-to-the-folder-k-with-cum(k)<=r<cum(k+1)", map_inv)),
         note="files without a stream are skipped, in header order; the r-th stream-bearing file is sub-stream j = r - cum(k) of the "
              "unique folder k with cum(k) <= r < cum(k) + num_streams(k); position j in _folder_to_files[k] follows from append order"))
     return out
@@ -1952,14 +2041,14 @@ def parser_contracts():
     SZ_LABEL = "size-j-is-the-j-th-NUMBER-after-the-0x09-marker"
     CRC_LABEL = "one-uint32-skipped-per-defined-digest"
 
-    def stream_v(st):
-        return st.obj(st.lookup("self").ref).data["_stream"]
+    def stream_v(lc):
+        return lc.entry.obj(top(lc, "self").ref).data["_stream"]
 
     def havoc_stream(ex, st):
-        common.havoc_pos(ex, st, stream_v(st))
+        common.havoc_pos(ex, st, st.obj(top(ex, "self").ref).data["_stream"])
 
     def sz_inv(lc):
-        stream = stream_v(lc.entry)
+        stream = stream_v(lc)
         s_, q0 = stream.t, common.bytesio_pos(lc.entry, stream)
         i = lc.i
         N = lc.seq.length
@@ -1974,12 +2063,12 @@ def parser_contracts():
         return z3.And(conj)
 
     def sz_result(lc):
-        stream = stream_v(lc.entry)
+        stream = stream_v(lc)
         s_, q0 = stream.t, common.bytesio_pos(lc.entry, stream)
         return VSeq(lc.i, lambda j: VInt(NUMV(s_, NUMPOS(s_, q0, j))), "int", tag=("numbers", s_, q0))
 
     def crc_inv(lc):
-        stream = stream_v(lc.entry)
+        stream = stream_v(lc)
         s_, c0 = stream.t, common.bytesio_pos(lc.entry, stream)
         tag = getattr(lc.seq, "tag", None)
         if not (isinstance(tag, tuple) and tag and tag[0] == "bitvector"):
@@ -2052,8 +2141,8 @@ def parser_contracts():
         requires=req_stream, hyps=pk_hyps, modifies=("self",),
         ensures=[("result-fields-and-position-equal-the-PackInfo-grammar", pk_post)],
         raises=[Raises(BAD, when=pk_raise, label="bad end marker / short stream")],
-        loops={("comp", 0): CompSpec(inv=sz_inv, result=sz_result, havoc=(havoc_stream,), label=SZ_LABEL),
-               0: LoopSpec(inv=crc_inv, havoc=(havoc_stream,), label=CRC_LABEL)},
+        loops=merged({("comp", "*"): CompSpec(inv=sz_inv, result=sz_result, havoc=(havoc_stream,), label=SZ_LABEL)},
+                     role(is_seq(tag="bitvector"), CRC_LABEL, crc_inv, havoc=(havoc_stream,))),
         note="PackInfo grammar of 7zFormat.txt for any numPackStreams; pack position made absolute by the 32-byte signature header"))
 
     # ---- _parse_substreams_info (BOUNDED shapes)
@@ -2537,6 +2626,13 @@ def guarded(fn, what):
 
 
 def guard_contract(c):
+    orig_hyps = c.hyps
+
+    def hyps(cx):
+        if not cx.at_call_site:            # the function under contract itself: remember its argument values for loop invariants
+            cx.ex.top_args = dict(cx.args)
+        return orig_hyps(cx) if orig_hyps is not None else z3.BoolVal(True)
+    c.hyps = hyps
     for attr in ("requires", "hyps", "returns", "result_maker", "frame", "yields"):
         setattr(c, attr, guarded(getattr(c, attr, None), f"{c.target.split('::')[-1]}.{attr}"))
     c.ensures = [(lab, guarded(fn, f"ensures#{lab}")) for (lab, fn) in c.ensures]
